@@ -50,7 +50,7 @@ def case(draw):
     c.update({
         "dissipation": dk,
         "log_z0": [draw(fl(-12.0, -3.0)) for _ in range(n)],
-        "input_type": draw(st.sampled_from(["u10", "u10", "friction_velocity"])),
+        "input_type": draw(st.sampled_from(["u10", "friction_velocity"])),
         "scale": draw(st.sampled_from([2.0, 0.5, 3.7, 10.0])),
         "pick": draw(st.integers(0, n - 1)),
         "gen_params": {k: draw(fl(0.5, 1.5)) for k in GEN_DEFAULTS} if draw(st.integers(0, 2)) == 0 else {},
@@ -126,6 +126,19 @@ def run(c):
     ref = terms.sum(axis=(1, 2))
     require(Bg.shape == (nb,) and (np.abs(Bg - ref) <= 1e-10 * np.abs(terms).sum(axis=(1, 2)) + 1e-300).all(),
             "bulk_input_is_integral_of_spectral_input", lambda: f"bulk={Bg} ref={ref}")
+
+    # the same identity on the implicit-roughness path (roughness estimated from the spectrum), for the
+    # wind-input type of this case: bulk_rate and rate must use the same roughness
+    Rimp = np.asarray(gen.rate(spec, speed, wdir, wind_speed_input_type=it).values)
+    Bimp = np.asarray(gen.bulk_rate(spec, speed, wdir, wind_speed_input_type=it).values)
+    timp = Rimp * df[None, :, None] * dd[None, None, :]
+    refimp = timp.sum(axis=(1, 2))
+    defined = np.isfinite(Rimp).all(axis=(1, 2))
+    okimp = (np.abs(Bimp - refimp) <= 1e-10 * np.abs(timp).sum(axis=(1, 2)) + 1e-300) | ~defined
+    require(okimp.all(), "bulk_input_is_integral_of_spectral_input_implicit_roughness",
+            lambda: f"input={it}: bulk={Bimp} integral of rate={refimp}")
+    require((np.isnan(Bimp) == ~defined).all(), "bulk_input_defined_where_spectral_input_is",
+            lambda: f"input={it}: bulk={Bimp} rate defined={defined}")
 
     D = np.asarray(dis.rate(spec).values)
     require(D.shape == Eb.shape and np.isfinite(D).all(), "dissipation_finite", f"{D.shape}")
